@@ -47,6 +47,10 @@ def check(repo, res, tier):
     res.rule('C02.P6', 'adopted C09.R4: a machine finishing work for a reserved observation returns to that reservation '
                        '(else the reservation outlives the run: "no reservation outstanding at the end")')
     borrow(repo, res, tier, c09, {'C09.R4'}, 'C02.P6')
+    from . import c04
+    res.rule('C02.P8', 'adopted C04.T2: a task is FINISHED only after the cluster has taken its machine back -- a task reported '
+                       'finished one event early lets a fully busy reservation be "released" while empty, and it is then never dropped')
+    borrow(repo, res, tier, c04, {'C04.T2'}, 'C02.P8')
     from .c10 import check_shared_state
     check_shared_state(repo, res, 'C02.P7', 'pools or counters are shared between Cluster objects: the reported numbers are not '
                        'those of this cluster')
